@@ -155,6 +155,16 @@ def FB.round (v err : Float) (srcs : List FB) : FB :=
   let mn := srcs.foldl (fun m s => fmin m s.mn) (if v == 0.0 then 1.0 else fmin 1.0 v.abs)
   ⟨v, err + 2.0 * uRound * v.abs, mx, mn⟩
 
+/-- the integer a finite integral double is (`round(x)` in Python, for any magnitude) -/
+def floatToInt (v : Float) : Option Int :=
+  if !(v.isFinite && v.floor == v) then none
+  else if v.abs < 9.0e18 then some v.toInt64.toInt
+  else
+    -- |v| ≥ 2^53 : v = m · 2^e with m ∈ [0.5, 1), and m · 2^53 is an integer
+    let (m, e) := v.frExp
+    let mi : Int := (m * 9007199254740992.0).toInt64.toInt
+    some (mi * (2 : Int) ^ (e - 53).toNat)
+
 def fbNum (mode : Nat) : Num FB where
   ofNat n := FB.lit (Float.ofNat n)
   e := FB.lit (Float.ofBits 0x4005bf0a8b145769)
@@ -224,7 +234,6 @@ def fbNum (mode : Nat) : Num FB where
     | 1 => a.v == b.v || near
     | 2 | 3 => a.v == b.v && !near
     | _ => a.v == b.v
-  toInt x :=
-    if x.v.isFinite && x.v.floor == x.v && x.v.abs < 9.0e18 then some x.v.toInt64.toInt else none
+  toInt x := floatToInt x.v
 
 end Smooth
